@@ -61,16 +61,22 @@ func genShapeScript(r *rand.Rand, parallel bool, p engParams) []scripted.Reply {
 		}
 	}
 	total := p.timeout + time.Duration(n)*p.delay
+	mixed := r.Intn(2) == 0
 	for t := int(p.first); t <= int(p.last); t++ {
 		if !destSet[t] && r.Float64() >= answerP {
 			continue
 		}
 		copies := 1
-		if r.Intn(5) == 0 {
+		if r.Intn(4) == 0 {
 			copies = 2 + r.Intn(2)
 		}
 		for c := 0; c < copies; c++ {
 			rep := scripted.Reply{TTL: uint8(t), Dest: destSet[t], Addr: hopAddr(uint8(t), c)}
+			if copies > 1 && mixed {
+				// replies for one TTL from a router and from the destination (e.g. a late destination answer
+				// after a router already answered, or the reverse)
+				rep.Dest = r.Intn(2) == 0
+			}
 			if parallel {
 				// any instant after its send up to beyond the deadline (late replies are never handed out)
 				sendAt := time.Duration(t-int(p.first)) * p.delay
